@@ -820,6 +820,10 @@ class Ex:
             la = self.try_list(a)
             if la is not None and isinstance(b, VInt) and is_conc(b.v):
                 return self.st.alloc(HList(la * b.v)) if isinstance(a, VRef) else VTuple(la * b.v)
+            if la is not None and len(la) == 1 and isinstance(b, VInt) and isinstance(a, VRef):
+                # [x] * n with a symbolic n: n copies of x (an empty list for n <= 0)
+                item = la[0]
+                return VSeq(z3.If(z_int(b.v) > 0, z_int(b.v), 0), lambda i, item=item: item, None, "list")
         if isinstance(op, ast.BitOr):
             if isinstance(a, (VLib, VClass)) and isinstance(b, (VLib, VClass, VNone)):
                 return VTuple([a, b])      # `int | float` in isinstance
